@@ -121,6 +121,8 @@ type exchangeSpec struct {
 	// slow: the client reads slowly - its receive window is small, and after the first bytes of the body it pauses
 	// (paused is closed) until resume is closed; the proxy meanwhile waits in a write with response bytes in hand
 	slow *slowClient
+	// listenerBreaksOnDisconnect: the caller's listener panics when told 'disconnected' (having noted the call)
+	listenerBreaksOnDisconnect bool
 	// client behaviour
 	clientCloseWhenBackendHasRequest bool // client goes away while the backend is stalled before responding
 	clientCloseAfterBody             int  // >0: client closes after reading that many body bytes (backend stalled mid-body)
@@ -353,6 +355,9 @@ func runExchange(spec exchangeSpec) exchangeResult {
 		mu.Lock()
 		res.events = append(res.events, listenerEvent{u.String(), state})
 		mu.Unlock()
+		if spec.listenerBreaksOnDisconnect && state&1 == 1 {
+			panic("simulated: the caller's connection-state listener is broken")
+		}
 	})
 	handlerDone := make(chan struct{})
 	var hdOnce sync.Once
